@@ -124,7 +124,7 @@ async def s_idle(app, start, pids, created):
     r = await result_of(start(0.05))
     seen = pids()
     n = len(created)
-    await app.shutdown(immediate=False)
+    await app.shutdown()                # the documented default is a graceful shutdown
     late = await result_of(start(0.05))
     fails = []
     if r[0] != 'ok':
@@ -139,7 +139,7 @@ async def s_graceful_busy(app, start, pids, created):
     await asyncio.sleep(0.3)
     seen = pids()
     n = len(created)
-    sd = asyncio.ensure_future(app.shutdown(immediate=False))
+    sd = asyncio.ensure_future(app.shutdown())          # default arguments: graceful
     late = await result_of(start(0.05))
     r = await result_of(t)
     await sd
